@@ -207,6 +207,31 @@ def check_guard(eng, run):
     run.ob("C07.guard", "FileBasedPacketSerializer.__check_file_buffer_limit", ok)
 
 
+def check_limit_escapes(eng, run):
+    """the limit error of a shared incremental parser surfaces as LimitOverrunError for every concrete serializer that inherits it: if
+    it can leave the defining class's entry point it can leave the subclass's too - a subclass whose configured `expected errors`
+    cover it (msgpack passes Exception) would otherwise turn it into an ordinary parse error whose remainder is the whole buffer,
+    which is kept and re-fed for ever (escape analysis per concrete class, shared with C06)"""
+    from rules import c06
+    from sa.analyses.escape import LIMIT, EscapeSummaries
+    summ = EscapeSummaries(eng)
+    n = 0
+    for ci, mname, label, fn, toks, bad in c06.entry_escapes(eng, summ, c06.ENTRY_POINTS[1:]):
+        owner = fn.cls
+        if owner is None or owner is ci:
+            continue
+        base = summ.escapes(fn, owner)
+        if LIMIT not in base:
+            continue
+        n += 1
+        ok = LIMIT in toks
+        if not ok:
+            run.finding("C07.guard", fn, fn.node, f"LimitOverrunError can leave {owner.name}.{mname} but not {ci.name}.{mname}: for {ci.name} the limit check sits inside a handler scope that catches it "
+                        "(its configured expected errors), so an oversized unterminated frame is reported as an ordinary parse error carrying the whole buffer - which the consumer keeps and re-feeds without bound")
+        run.ob("C07.guard", f"{ci.name}.{mname}:limit-error-not-swallowed", ok, inherited_from=owner.name)
+    run.floor("C07.guard inherited entry points with a limit error", n, 2)
+
+
 class AfterSearch(RuleAnalysis):
     """fact: 'none' | 'notfound' (a search ran in this round and returned -1) ; the not-found limit error needs 'notfound'"""
     tokens = ("Exception",)
@@ -378,7 +403,11 @@ def check_thread(eng, run):
 def run(eng, run):
     run.not_decided += NOT_DECIDED
     check_guard(eng, run)
+    check_limit_escapes(eng, run)
     check_early(eng, run)
+    from rules import c01
+    from sa.report import RuleAlias
+    c01.check_esc(eng, RuleAlias(run, "C07.early"))  # a mis-framed string swallows later frames until the limit rejects small ones
     check_fixed(eng, run)
     check_thread(eng, run)
     run.tables["no_limit_by_design"] = NO_LIMIT_BY_DESIGN
@@ -449,4 +478,24 @@ def _hoist_len(fn):
 MUTANTS += [
     Variant("raw-parse-plain-value-limit-test-on-a-hoisted-length", _RAW, _hoist_len, "C07.guard",
             why="the length compared with the limit was computed before the loop: later chunks are never counted (seed C06-8)"),
+]
+
+
+
+def _limit_check_inside_try(fn):
+    chk = next(st for st in ast.walk(fn) if isinstance(st, ast.Expr) and "__check_file_buffer_limit" in ast.unparse(st))
+    for n in ast.walk(fn):
+        blk = getattr(n, "body", None)
+        if isinstance(blk, list) and chk in blk:
+            i = blk.index(chk)
+            t = blk[i + 1]
+            assert isinstance(t, ast.Try)
+            blk.remove(chk)
+            t.body.insert(0, chk)
+            return
+
+
+MUTANTS += [
+    Variant("filebased-limit-check-inside-the-try", _FB + ".__generic_incremental_deserialize", _limit_check_inside_try, "C07.guard", expect_fn="FileBasedPacketSerializer",
+            why="msgpack (expected errors = Exception) converts the limit error into a parse error carrying the whole buffer: unbounded retention (seed C07-7)"),
 ]
